@@ -190,6 +190,11 @@ def classer(cfg):
 COMP = Component(
     spec="Latency", name="latency", build=build, methods=methods,
     has_arg=lambda m: True, gen_arg=gen_arg, tracker=Tracker, module=__name__,
+    # second callers; not for `start` of the wide measurer with max_start_count > 1: start forwards its argument to
+    # WideFifo.write (validate_arguments), and a forwarding method with two callers is the known C10 finding
+    # (combinational cycle, the simulation would not settle)
+    shadow=lambda cfg: [] if not cfg["en"] else
+    [m for m in methods(cfg) if not (cfg["kind"] == "wide" and cfg["msc"] > 1 and m.startswith("start"))],
     trace_extra="PubMatches == Line.pub = C!Pub(cfg, st)",
     trace_extra_names=["PubMatches"],
 )
